@@ -1,3 +1,296 @@
-import PoxModel.Spec.OF10Table
+import PoxModel.Proofs.FlowModRefine
+/-! # C04 — the flow table evolves as the OpenFlow 1.0 FLOW_MOD / timeout state machine
+
+Property theorems only.  Model: `Model/FlowMod.lean` (`step`, `run` — the flow-mod handlers, `rx_packet`'s table part, the expiry
+sweep and the flow-removed emission of the software switch, as the code stands at `/repo` HEAD *with the proposed repair D23
+applied*: `check_for_overlapping_entry` tests the standard's overlap, `/verif/fixes/D23_check_overlap_true_overlap.diff`); standard: `Spec/OF10Table.lean`
+(§4.6 / §4.7) on top of `Spec/OF10Match.lean` (§3.4); helper lemmas: `Proofs/FlowMod.lean`, `Proofs/FlowModRefine.lean`,
+`Proofs/StrictMatch.lean`, `Proofs/Overlap.lean` and C03's `Proofs/FlowTable`, `Proofs/Subsume`, `Proofs/MatchSubsume`.
+
+All theorems quantify over every state / every history (no bound on table size, history length, priorities or times).
+`table_sorted`, `removed_once`, `expiry_window`, `clock_inv` are about the model alone and hold without hypotheses.  The refinement
+theorems (`flowmod_refines`, `history_refines`) compare with the standard and need hypotheses on the transmitted matches
+(`MatchOk`).  Each hypothesis that the real code needs is witnessed by a `…_defect` theorem at the end (the harness replays the
+same inputs on the real switch).  D23 (CHECK_OVERLAP tested mutual subsumption) is repaired rather than excluded:
+`overlap_check_exact` is the statement that failed before the repair, `partial_overlap_witness` the input that showed it. -/
 namespace Pox.C04
+open Pox.OF Pox.OF.OfMatch Pox.FlowMod Pox.Spec
+
+/-! ## the table stays sorted -/
+
+/-- Descending effective priority is an invariant of every operation: after every prefix of every history of flow-mods
+    (all five commands, any flags), packet arrivals, clock advances, sweeps and statistics requests, started from the empty
+    table (or any sorted one), the table is sorted.  (`(run s ops).1` is the state after `ops`; every prefix of a history is a
+    history.) -/
+theorem table_sorted (s : State) (ops : List Op) (hs : Sorted s.table) : Sorted (run s ops).1.table := run_sorted s ops hs
+
+theorem table_sorted_init (now mx : Nat) (ops : List Op) : Sorted (run (init now mx) ops).1.table :=
+  run_sorted _ ops List.Pairwise.nil
+
+/-- "An identical match and priority replaces": in every state reachable from the empty table — whatever the history, with no
+    hypothesis on the messages — no two entries have equal match (`ofp_match.__eq__`) and equal priority.  ADD removes the equal
+    entry before inserting; MODIFY only acts as ADD when no entry was selected, and an equal entry would have been. -/
+theorem no_duplicates (now mx : Nat) (ops : List Op) : Uniq (run (init now mx) ops).1.table :=
+  run_uniq _ ops List.Pairwise.nil
+
+/-! ## flow-removed: exactly once, for exactly the removals the entry asked to hear about -/
+
+/-- **removed_once.**  For every state and every operation:
+
+1. the flow-removed messages the step writes are, in order, one per *departure* (`departures`: entries an expiry sweep removes —
+   idle-expired ones with reason IDLE_TIMEOUT, then hard-expired ones among the others with HARD_TIMEOUT — and entries DELETE /
+   DELETE_STRICT select, with reason DELETE) whose entry carries `OFPFF_SEND_FLOW_REM` (and not `OFPFF_EMERG`), each carrying the
+   entry's match, cookie, priority, that reason, the entry's age at the time of the step, its idle timeout and its packet and byte
+   counters (`removedMsg`);
+2. each departure is an entry of the table before the step, and its reason is the right one: IDLE_TIMEOUT only if the idle
+   deadline has passed, HARD_TIMEOUT only if the hard deadline has passed and the idle one has not;
+3. ADD (including the silent replacement of the entry with identical match and priority), MODIFY, MODIFY_STRICT (including
+   modify-acting-as-add), packet arrivals, clock advances and statistics requests produce no flow-removed message at all.
+
+Together with `departures_leave` (the departures are exactly what leaves the table) this is "exactly one message per notifiable
+removal, none otherwise".  This is what the code does; it is also what the standard prescribes (§4.6: a replaced flow is removed
+without notification; §4.7 / §5.4.2), see `history_refines`. -/
+theorem removed_once (s : State) (op : Op) :
+    removals (step s op).2 =
+      ((departures s op).filter (fun d => wantsRemoved d.1)).map (fun d => removedMsg s.now d.2 d.1) ∧
+    (∀ d ∈ departures s op, d.1 ∈ s.table ∧
+      (d.2 = OFPRR_IDLE_TIMEOUT → op = .sweep ∧ idleOut s.now d.1 = true) ∧
+      (d.2 = OFPRR_HARD_TIMEOUT → op = .sweep ∧ idleOut s.now d.1 = false ∧ hardOut s.now d.1 = true) ∧
+      (d.2 = OFPRR_DELETE → ∃ fm, op = .flowMod fm ∧ (fm.cmd = .delete ∨ fm.cmd = .deleteStrict))) ∧
+    ((∀ fm, op = .flowMod fm → fm.cmd = .add ∨ fm.cmd = .modify ∨ fm.cmd = .modifyStrict) → op ≠ .sweep →
+      removals (step s op).2 = []) := by
+  have n01 : OFPRR_IDLE_TIMEOUT ≠ OFPRR_HARD_TIMEOUT := by decide
+  have n02 : OFPRR_IDLE_TIMEOUT ≠ OFPRR_DELETE := by decide
+  have n12 : OFPRR_HARD_TIMEOUT ≠ OFPRR_DELETE := by decide
+  refine ⟨step_removals s op, ?_, ?_⟩
+  · intro d hd
+    cases op with
+    | sweep =>
+      simp only [departures, List.mem_append, List.mem_map, List.mem_filter, Bool.and_eq_true, Bool.not_eq_true'] at hd
+      rcases hd with ⟨e, ⟨he, hi⟩, rfl⟩ | ⟨e, ⟨he, hi, hh⟩, rfl⟩
+      · exact ⟨he, fun _ => ⟨rfl, hi⟩, fun h => absurd h n01, fun h => absurd h n02⟩
+      · exact ⟨he, fun h => absurd h n01.symm, fun _ => ⟨rfl, hi, hh⟩, fun h => absurd h n12⟩
+    | flowMod fm =>
+      cases hc : fm.cmd <;> simp only [departures, hc, List.not_mem_nil, List.mem_map, List.mem_filter] at hd
+      · obtain ⟨e, ⟨he, _⟩, rfl⟩ := hd
+        exact ⟨he, fun h => absurd h n02.symm, fun h => absurd h n12.symm, fun _ => ⟨fm, rfl, .inl hc⟩⟩
+      · obtain ⟨e, ⟨he, _⟩, rfl⟩ := hd
+        exact ⟨he, fun h => absurd h n02.symm, fun h => absurd h n12.symm, fun _ => ⟨fm, rfl, .inr hc⟩⟩
+    | packet p port len => simp [departures] at hd
+    | advance dt => simp [departures] at hd
+    | flowStats m o => simp [departures] at hd
+    | aggStats m o => simp [departures] at hd
+  · intro hfm hsw
+    rw [step_removals]
+    cases op with
+    | sweep => exact absurd rfl hsw
+    | flowMod fm =>
+      rcases hfm fm rfl with h | h | h <;> simp [departures, h]
+    | packet p port len => rfl
+    | advance dt => rfl
+    | flowStats m o => rfl
+    | aggStats m o => rfl
+
+/-- the departures are exactly what leaves the table in a sweep or a DELETE[_STRICT]: old table = new table + departed entries,
+    as multisets (so every entry of the old table is accounted for exactly once: kept, or departed with one reason) -/
+theorem departures_leave (s : State) (op : Op)
+    (h : op = .sweep ∨ ∃ fm, op = .flowMod fm ∧ (fm.cmd = .delete ∨ fm.cmd = .deleteStrict)) :
+    s.table.Perm ((step s op).1.table ++ (departures s op).map (·.1)) := by
+  rcases h with rfl | ⟨fm, rfl, hc⟩
+  · exact sweep_perm s
+  · exact delete_perm s fm hc
+
+/-! ## expiry -/
+
+/-- **expiry_window.**
+1. A sweep at time `now` removes an entry exactly when one of its deadlines lies *strictly* before `now`
+   (`idle_timeout > 0 ∧ last_touched + idle_timeout < now`, or `hard_timeout > 0 ∧ created + hard_timeout < now`, seconds scaled to
+   milliseconds): not earlier, and not later than the first sweep after the deadline — after any sweep no entry past a deadline is
+   left, so no sweep between the deadline and `now` can have spared it.
+2. No other operation removes an entry because of time (`removed_once`: only DELETE and the replacement by ADD take entries out).
+3. Every entry of the table after a step is an entry of the table before with unchanged `created`, `last_touched`, counters and
+   timeouts (`Kept`) — or the one entry a packet hit, whose `last_touched` becomes `now` and counters grow while `created` stays —
+   or the entry a flow-mod just created.  So only traffic refreshes the idle clock and nothing refreshes the hard clock; MODIFY
+   leaves both alone. -/
+theorem expiry_window (s : State) :
+    (∀ e, e ∈ (step s .sweep).1.table ↔
+      e ∈ s.table ∧ ¬ (e.data.idle > 0 ∧ e.data.touched + e.data.idle * 1000 < s.now) ∧
+        ¬ (e.data.hard > 0 ∧ e.data.created + e.data.hard * 1000 < s.now)) ∧
+    (∀ op e', e' ∈ (step s op).1.table →
+      Kept s e' ∨
+      (∃ p inPort len, op = .packet p inPort len ∧ ∃ e ∈ s.table, e.accepts (fromPacket p inPort) = true ∧ e' = touch len s.now e) ∨
+      (∃ fm, op = .flowMod fm ∧ e' = mkEntry s.now fm ∧ fm.flags.testBit FF_EMERG = false)) := by
+  refine ⟨?_, fun op e' h => step_clocks s op e' h⟩
+  intro e
+  simp only [FlowMod.step, FlowMod.sweep, List.mem_filter, Bool.and_eq_true, Bool.not_eq_true', ← idleOut_iff, ← hardOut_iff,
+    Bool.not_eq_true]
+
+/-- `created ≤ last_touched ≤ now` in every reachable state: durations and idle times are never negative -/
+theorem clock_inv (now mx : Nat) (ops : List Op) : ClockOk (run (init now mx) ops).1 := by
+  suffices h : ∀ (s : State), ClockOk s → ClockOk (run s ops).1 from h _ (fun _ h => by simp [init] at h)
+  induction ops with
+  | nil => exact fun s h => h
+  | cons op ops ih => exact fun s h => ih _ (step_clockOk s op h)
+
+/-! ## refinement to the standard -/
+
+/-- **flowmod_refines** (one step, every operation).  In a state satisfying the invariant (sorted; every entry stems from a regular
+    transmitted match; at most `max_entries` entries), for an event satisfying its hypotheses (`OpOk`: regular match and 16-bit
+    priority in a flow-mod, complete frame without ECN bits, canonical match in a statistics request), the model's step is the
+    standard's step: same table (flows, actions, clocks, counters, order) and same messages.  Covers ADD with replacement and
+    counter reset, CHECK_OVERLAP, table-full, emergency refusals, MODIFY / MODIFY_STRICT including modify-acts-as-add, DELETE /
+    DELETE_STRICT with the `out_port` filter and flow-removed, packet accounting, sweeps, flow and aggregate statistics. -/
+theorem flowmod_refines (s : State) (op : Op) (hi : Inv s) (ho : OpOk op) :
+    abs (step s op).1 = (Spec.step (abs s) op).1 ∧ (step s op).2.map absOut = (Spec.step (abs s) op).2 ∧ Inv (step s op).1 :=
+  ⟨(step_refines s op hi ho).1, (step_refines s op hi ho).2, step_inv s op hi ho⟩
+
+/-- **history_refines.**  From the empty table, for every history whose events satisfy their hypotheses in the states they are
+    applied to, the model's table equals the standard's table after the history (hence after every prefix), everything written
+    step by step equals what the standard prescribes, and the invariant holds. -/
+theorem history_refines (now mx : Nat) (ops : List Op) (h : HistOk (init now mx) ops) :
+    abs (run (init now mx) ops).1 = (Spec.run { flows := [], now := now, capacity := mx } ops).1 ∧
+    (run (init now mx) ops).2.map (fun os => os.map absOut) = (Spec.run { flows := [], now := now, capacity := mx } ops).2 ∧
+    Inv (run (init now mx) ops).1 :=
+  run_refines (init now mx) ops (init_inv now mx) h
+
+/-- what the code's three match tests mean in the standard's terms, for regular transmitted matches: the non-strict test is
+    subsumption of every 12-tuple, the strict test is "same set of 12-tuples" -/
+theorem selection_meaning (a b : OfMatch) (ha : MatchOk a) (hb : MatchOk b) :
+    (matchesWith true (ofWire a) (ofWire b) = true ↔ ∀ h : Headers, matchHdr b h = true → matchHdr a h = true) ∧
+    (eqMatch (ofWire a) (ofWire b) = true ↔ ∀ h : Headers, matchHdr a h = matchHdr b h) := by
+  rw [subsumes_code a b ha hb, strict_iff a b ha hb]
+  exact ⟨subsumes_forall a b, identical_iff a b⟩
+
+/-- the standard's overlap relation used by `Spec.add` is "a single packet may match both" -/
+theorem overlap_meaning (a b : OfMatch) : overlaps a b = true ↔ ∃ h : Headers, matchHdr a h = true ∧ matchHdr b h = true :=
+  overlaps_iff_exists a b
+
+/-- **D23, repaired.**  `check_for_overlapping_entry` answers exactly as the standard prescribes: for a regular flow-mod it
+    reports an overlap iff some installed flow of the new flow's rank (exact flows above all priorities) can be matched by a
+    packet that also matches the new flow.  (Before the repair the code tested whether one match encompasses the other and
+    this statement was false: `partial_overlap_witness`.) -/
+theorem overlap_check_exact (s : State) (fm : FlowModMsg) (hi : Inv s) (hm : MsgOk fm) (he : fm.flags.testBit FF_EMERG = false) :
+    overlapScan (mkEntry s.now fm).effectivePriority (ofWire fm.mtch) s.table = true ↔
+      ∃ e ∈ s.table, (absEntry e).rank = (newFlow s.now fm).rank ∧
+        ∃ h : Headers, matchHdr e.data.wire h = true ∧ matchHdr fm.mtch h = true := by
+  rw [overlap_abs s fm hi hm he]
+  simp only [abs, List.any_map, List.any_eq_true, Function.comp, Bool.and_eq_true, beq_iff_eq, overlaps_iff_exists]
+  rfl
+
+/-! ## witnesses: the hypotheses are satisfiable by non-trivial histories, and what happens outside them -/
+
+/-- wildcard word with every flag set except those listed, and the two prefix counters -/
+def wc (clear : List Fld) (src dst : Nat) : Nat :=
+  (Fld.all.filter (fun f => !clear.contains f)).foldl (fun w f => w ||| f.mask) 0 ||| src <<< 8 ||| dst <<< 14
+
+def zeroMatch : OfMatch :=
+  { wildcards := 0, inPort := 0, dlSrc := 0, dlDst := 0, dlVlan := 0, dlVlanPcp := 0, dlType := 0, nwTos := 0, nwProto := 0,
+    nwSrc := 0, nwDst := 0, tpSrc := 0, tpDst := 0 }
+
+def mAll : OfMatch := { zeroMatch with wildcards := wc [] 32 32 }
+def mInPort1 : OfMatch := { zeroMatch with wildcards := wc [.inPort] 32 32, inPort := 1 }
+def mIp : OfMatch := { zeroMatch with wildcards := wc [.dlType] 32 32, dlType := 0x0800 }
+/-- the same flow as `mIp`, encoded with the (ignored) tp_src bit clear -/
+def mIpB : OfMatch := { zeroMatch with wildcards := wc [.dlType, .tpSrc] 32 32, dlType := 0x0800 }
+def mNet8 : OfMatch := { zeroMatch with wildcards := wc [.dlType] 24 32, dlType := 0x0800, nwSrc := 0x0a000000 }
+def mTcp80 : OfMatch := { zeroMatch with wildcards := wc [.dlType, .nwProto, .tpDst] 32 32, dlType := 0x0800, nwProto := 6, tpDst := 80 }
+def mArp : OfMatch := { zeroMatch with wildcards := wc [.dlType] 32 32, dlType := 0x0806 }
+
+/-- 10.1.1.1:1000 → 10.2.2.2:80 TCP, untagged -/
+def tcpFrame : PHdr :=
+  { src := 1, dst := 2, typ := 0x0800, llc := none, vlan := none, l3 := .ipv4 0x0a010101 0x0a020202 6 0 false (.ports 1000 80) }
+
+def fmsg (cmd : Cmd) (m : OfMatch) (prio flags cookie : Nat) (idle hard : Nat := 0) (outPort : Nat := OFPP_NONE)
+    (acts : List Action := [.output 2 0]) : Op :=
+  .flowMod { cmd := cmd, mtch := m, cookie := cookie, idle := idle, hard := hard, priority := prio, outPort := outPort, flags := flags,
+             actions := acts }
+
+/-- a history that uses every command, both flags, the `out_port` filter, traffic, the clock and sweeps -/
+def demo : List Op :=
+  [ fmsg .add mIp 100 1 1 (idle := 1) (hard := 5),                 -- SEND_FLOW_REM, idle 1 s
+    fmsg .add mNet8 100 3 2 (acts := [.output 3 0]),               -- CHECK_OVERLAP|SEND_FLOW_REM: refused, overlaps (is inside) mIp
+    fmsg .add mNet8 200 3 3 (acts := [.output 3 0]),               -- other priority: accepted
+    fmsg .add mArp 100 2 4,                                        -- CHECK_OVERLAP: disjoint from mIp, accepted
+    .packet tcpFrame 1 74,                                         -- hits mNet8 (priority 200)
+    fmsg .modify mIp 7 0 5 (acts := []),                           -- non-strict: rewrites mIp and mNet8
+    fmsg .modifyStrict mTcp80 7 1 6 (hard := 1),                   -- nothing identical: acts as ADD
+    fmsg .add mIpB 100 0 7,                                        -- identical to mIp (other encoding): replaces it silently
+    .advance 1125, .sweep,                                         -- mTcp80 hard-expires (flow-removed, reason 1)
+    fmsg .delete mAll 0 0 8 (outPort := 3),                        -- out_port filter: nothing outputs to 3 any more
+    fmsg .deleteStrict mNet8 200 0 9,                              -- flow-removed, reason 2, with the packet counted
+    .aggStats mAll OFPP_NONE ]
+
+-- the hypotheses of `history_refines` hold for `demo` …
+example : HistOk (init 1000000 100) demo := by decide
+-- … the history is not trivial: an overlap refusal, a hard-timeout and a delete notification, the aggregate of what is left
+example : (run (init 1000000 100) demo).2.map (fun os => os.map absOut) =
+    [[], [.error 3 1], [], [], [], [], [], [], [], [.flowRemoved ⟨mTcp80, 6, 7, 1, 1, 125000000, 0, 0, 0⟩], [],
+     [.flowRemoved ⟨mNet8, 3, 200, 2, 1, 125000000, 0, 1, 74⟩], [.aggStats 0 0 2]] := by decide
+example : (run (init 1000000 100) demo).1.table.map (fun e => (e.data.cookie, e.priority, e.data.actions)) =
+    [(7, 100, [.output 2 0]), (4, 100, [.output 2 0])] := by decide
+-- `removed_once` / `expiry_window`: a state with departures of both kinds and an entry that stays
+example : (departures (run (init 1000000 100) (demo.take 9)).1 .sweep).map (fun d => (d.1.data.cookie, d.2)) = [(6, 1)] ∧
+    (run (init 1000000 100) (demo.take 9)).1.table.length = 4 := by decide
+-- `no_duplicates`: the replacement in `demo` (cookie 7 took the place of cookie 1, same flow in another encoding)
+example : sameKey (mkEntry 0 ⟨.add, mIp, 1, 0, 0, 100, OFPP_NONE, 0, []⟩) (mkEntry 5 ⟨.add, mIpB, 7, 0, 0, 100, OFPP_NONE, 0, []⟩) = true := by
+  decide
+-- `selection_meaning` / `MatchOk`: regular matches, both outcomes
+example : MatchOk mNet8 ∧ MatchOk mIp ∧ MatchOk mIpB ∧ MatchOk mTcp80 := by decide
+example : matchesWith true (ofWire mIp) (ofWire mNet8) = true ∧ matchesWith true (ofWire mNet8) (ofWire mIp) = false ∧
+    eqMatch (ofWire mIp) (ofWire mIpB) = true ∧ eqMatch (ofWire mIp) (ofWire mNet8) = false := by decide
+
+/-! ### what the hypotheses exclude (open findings; the harness replays the same inputs on the real switch) -/
+
+/-- **D23** (repaired; kept as the regression input the harness replays).  `in_port=1` and `dl_type=0x0800`, same priority, both
+    with `OFPFF_CHECK_OVERLAP`: an IPv4 frame arriving on port 1 matches both although neither description subsumes the other —
+    the mutual-subsumption test of the unrepaired code accepted the second ADD.  Standard and (repaired) model refuse it with
+    `OFPFMFC_OVERLAP`. -/
+theorem partial_overlap_witness :
+    let ops := [fmsg .add mInPort1 100 2 1, fmsg .add mIp 100 2 2]
+    HistOk (init 0 100) ops ∧
+    matchHdr mInPort1 (headers tcpFrame 1) = true ∧ matchHdr mIp (headers tcpFrame 1) = true ∧
+    subsumes mInPort1 mIp = false ∧ subsumes mIp mInPort1 = false ∧
+    (run (init 0 100) ops).1.table.map (·.data.cookie) = [1] ∧
+    (run (init 0 100) ops).2 = [[], [.error OFPET_FLOW_MOD_FAILED OFPFMFC_OVERLAP]] ∧
+    (Spec.run { flows := [], now := 0, capacity := 100 } ops).2 = [[], [.error OFPET_FLOW_MOD_FAILED OFPFMFC_OVERLAP]] := by decide
+
+/-- 10.9.9.9/8 and 10.1.1.1/8: the same flow (only the 8 prefix bits are compared), written with different host bits -/
+def mNet8a : OfMatch := { mNet8 with nwSrc := 0x0a090909 }
+def mNet8b : OfMatch := { mNet8 with nwSrc := 0x0a010101 }
+
+/-- **C04-1** — `ofp_match.__eq__` compares the address fields unmasked.  Two ADDs of the same flow (`nw_src=10.x.x.x/8`,
+    same priority) whose address fields differ below the prefix length do not replace each other: the table ends with two
+    entries where the standard has one (and DELETE_STRICT / MODIFY_STRICT miss the flow in the same way).  The matches denote the
+    same set of packets (`identical`); of `MatchOk` only the no-host-bits clause fails. -/
+theorem strict_hostbits_defect :
+    let ops := [fmsg .add mNet8a 100 0 1, fmsg .add mNet8b 100 0 2]
+    identical mNet8a mNet8b = true ∧ PrereqExact mNet8a ∧ mNet8a.wildcards < 2 ^ 22 ∧ ¬ MatchOk mNet8a ∧
+    (run (init 0 100) ops).1.table.map (·.data.cookie) = [2, 1] ∧
+    (Spec.run { flows := [], now := 0, capacity := 100 } ops).1.flows.map (·.cookie) = [2] := by decide
+
+/-- "all wildcards" written as `0xffffffff` (bits 22..31 are undefined in OpenFlow 1.0) -/
+def mAllHi : OfMatch := { zeroMatch with wildcards := 0xffffffff }
+
+/-- **C04-2** — the undefined bits 22..31 of the wildcard word are kept and compared.  A match-all flow installed with
+    `wildcards = 0xffffffff` survives `DELETE` with the match-all `OFPFW_ALL` (0x3fffff): the code requires the entry's wildcard
+    flags to be a subset of the request's.  In the standard both words denote every packet, and the delete empties the table. -/
+theorem undefined_bits_defect :
+    let ops := [fmsg .add mAllHi 100 0 1, fmsg .delete mAll 0 0 2]
+    subsumes mAll mAllHi = true ∧ PrereqExact mAllHi ∧ ¬ MatchOk mAllHi ∧
+    (run (init 0 100) ops).1.table.map (·.data.cookie) = [1] ∧
+    (Spec.run { flows := [], now := 0, capacity := 100 } ops).1.flows = [] := by decide
+
+/-- an ARP description whose (ignored) tp_src bit is clear, as a controller that only sets the bits it cares about sends it -/
+def mArpQ : OfMatch := { zeroMatch with wildcards := wc [.dlType, .tpSrc] 32 32, dlType := 0x0806 }
+
+/-- **C04-3** — statistics requests decode their match without the flow-mod normalisation (`unpack(flow_mod=False)`), so a field
+    the standard ignores (tp_src of an ARP description) but that is not wildcarded makes the request select nothing: aggregate
+    statistics for "all ARP flows" report 0 flows with one ARP flow installed.  The description is regular (`MatchOk`) and the
+    standard counts the flow; the hypothesis `ofWirePlain m = ofWire m` of `OpOk` is what fails. -/
+theorem stats_unwired_defect :
+    let ops := [fmsg .add mArp 100 0 1, .aggStats mArpQ OFPP_NONE]
+    MatchOk mArpQ ∧ subsumes mArpQ mArp = true ∧ ofWirePlain mArpQ ≠ ofWire mArpQ ∧
+    (run (init 0 100) ops).2 = [[], [.aggStats 0 0 0]] ∧
+    (Spec.run { flows := [], now := 0, capacity := 100 } ops).2 = [[], [.aggStats 0 0 1]] := by decide
+
 end Pox.C04
